@@ -20,10 +20,20 @@ def _call(ck, fname, build, max_paths=16):
 
     def th(it):
         args, kwargs = build(it)
+        it.c15_out = kwargs.get("out")
         return it.call_function(__import__("qsa.values", fromlist=["VFunc"]).VFunc(f), args, kwargs, None)
 
     paths = paths_of(ck.program, th, max_paths=max_paths)
     ck.note_functions(functions_in_paths(paths))
+    # R6: no kernel writes into an operand (x / x, x * conj(x), a second use of the same operand must see the value passed in);
+    # only an explicit out= buffer is written
+    for p in paths:
+        outv = getattr(p.interp, "c15_out", None)
+        outs = outv.obj.roots() if hasattr(outv, "obj") and hasattr(outv.obj, "roots") else set()
+        wr = [e for e in p.effects if e.kind == "write" and e.obj not in outs and any(o.startswith("param:") for o in e.origins)]
+        ck.check(not wr, "C15.R6", "%s:operands are read only [%s]" % (fname, ",".join("%s=%s" % (c[1][:18], c[2]) for c in p.conds[:2])), wr[0].site if wr else f.site(),
+                 "%s writes into its operand %s (%s): the caller's tensor is changed, and when the same tensor is passed for both operands the result itself is wrong"
+                 % (fname, sorted(o for o in wr[0].origins if o.startswith("param:"))[:1] if wr else "", wr[0].detail if wr else ""), key="C15.R6|%s|operand written" % fname)
     return f, paths
 
 
@@ -275,6 +285,7 @@ def run(ck):
     ck.require_min("C15.R3", 2)
     ck.require_min("C15.R4", 10)
     ck.require_min("C15.R5", 9)
+    ck.require_min("C15.R6", 40)
     ck.assumptions += [
         "torch.mul/matmul/einsum/ger/dot are bilinear over the reals; torch.cat/unsqueeze build the (re, im) pair",
         "numeric agreement for all shapes/broadcasts, float32/float64 mixing and numpy's complex exp inside cplx.sigmoid are not decided",
